@@ -56,6 +56,7 @@ def run(ctx):
     ctx.guard(r5_confined)
     ctx.guard(r6_ticks)
     ctx.guard(r7_collecting_preconditions)
+    ctx.guard(r8_queries_do_not_tick)
     ctx.assume("asserts of the metrics API may abort a collecting run "
                "(termination-insensitive non-interference)")
     ctx.assume("Fiber._saved_* statistics do not influence results (C03/C07 "
@@ -65,6 +66,81 @@ def run(ctx):
 def _walk(stmts):
     from ..cfg import walk_own
     return walk_own(stmts)
+
+
+# -- R8: asking a fiber a question is not a loop of the kernel ---------------------
+
+TICKING_ITERS = {"__iter__", "iterOccupancy", "iterShape", "iterShapeRef", "iterActive",
+                 "iterActiveShape", "iterActiveShapeRef", "iterRange", "iterRangeShape",
+                 "iterRangeShapeRef"}
+QUERIES = ("__len__", "__bool__", "__contains__", "isEmpty", "countValues", "nonEmpty",
+           "maxCoord", "minCoord", "getShape", "estimateShape", "getCoords",
+           "getPayloads", "__repr__", "__str__", "__format__", "getActive")
+
+
+def r8_queries_do_not_tick(ctx):
+    """The default traversal of a fiber (`for x in f`, `f.__iter__()`,
+    `iterOccupancy()` ...) ticks: while metrics are collected it registers the
+    rank as a level of the loop nest, advances its iteration counter and
+    writes `iter` rows.  Methods a kernel calls to *ask* something (len(),
+    truth, emptiness, counts, bounds, shapes, printing) must therefore walk
+    the raw lists or pass tick=False; otherwise `if len(lazy) == 0: continue`
+    is recorded as loop iterations of that rank."""
+    from ..sites import iter_kind, RAW
+    n = 0
+    for cname in ("Fiber", "Tensor"):
+        ci = ctx.prog.cls(cname)
+        for q in QUERIES:
+            f = ci.methods.get(q)
+            if f is None or f.node is None:
+                continue
+            ctx.consulted.add(f.module.rel)
+            sites = []
+            for nd in f.own_nodes():
+                its = []
+                if isinstance(nd, (ast.For, ast.comprehension)):
+                    its.append(nd.iter)
+                if isinstance(nd, ast.Call) and isinstance(nd.func, ast.Name) and \
+                        nd.func.id in ("iter", "list", "tuple", "sum", "any", "all",
+                                       "sorted", "next", "enumerate", "zip", "set"):
+                    its += [a for a in nd.args if not isinstance(a, ast.Starred)]
+                for it in its:
+                    e = it
+                    while isinstance(e, ast.Call) and isinstance(e.func, ast.Name) and \
+                            e.func.id in ("enumerate", "iter", "reversed", "zip") and e.args:
+                        e = e.args[0]
+                    if isinstance(e, (ast.GeneratorExp, ast.ListComp, ast.SetComp)):
+                        continue        # its own generators are visited as comprehensions
+                    sites.append((nd, e))
+            for nd, e in sites:
+                ticking = None
+                if isinstance(e, ast.Call) and isinstance(e.func, ast.Attribute) and \
+                        e.func.attr in TICKING_ITERS:
+                    tk = pat.kwarg(e, "tick", None)
+                    if tk is None and e.func.attr in ("iterShape", "iterShapeRef", "iterOccupancy",
+                                                     "iterActive", "iterActiveShape",
+                                                     "iterActiveShapeRef", "__iter__") and e.args:
+                        tk = e.args[0]
+                    ticking = not (isinstance(tk, ast.Constant) and tk.value is False)
+                else:
+                    try:
+                        kind, _b = iter_kind(ctx, f, e)
+                    except Exception:
+                        kind = None
+                    if kind is None or kind is RAW:
+                        continue
+                    ticking = True
+                n += 1
+                if ticking:
+                    ctx.bad("C15.R8", f, e, "%s.%s walks `%s` with the ticking "
+                            "default traversal: while metrics are collected, "
+                            "asking this question registers the rank and counts "
+                            "loop iterations the kernel never executed (a kernel "
+                            "that only tests `len(f)` / emptiness gets a doubled "
+                            "iteration count)" % (cname, q, text(e)[:50]))
+                else:
+                    ctx.ok("C15.R8", f, e, "query walks the fiber with tick=False")
+    ctx.floor("C15.R8", n, 1, "fiber traversals inside query methods")
 
 
 # -- R7: what a function demands only while collecting, its callers in the
